@@ -75,6 +75,8 @@ structure Trial where
   flagged : Bool
   /-- `subConstraintSatisfiable` after the scan -/
   accepted : Bool
+  /-- owners (cc, sub) of the flagged entries of `valid[dim]`; the tried constraint itself is its own (cc, sub) -/
+  flaggedOwners : List (Nat × Nat) := []
   deriving Repr, Inhabited
 
 structure MF where
@@ -126,6 +128,7 @@ structure TrialOut where
   accepted : Bool
   margin : Rat
   fuelOut : Bool
+  flaggedOwners : List (Nat × Nat) := []
 
 /-- one trial: add `c` to `valid[dim]`, solve, scan for flags, keep or back out -/
 def DimSt.tryCon (n : Nat) (ds : DimSt) (c : Con) (own : Nat × Nat := (0, 0)) : TrialOut :=
@@ -135,7 +138,8 @@ def DimSt.tryCon (n : Nat) (ds : DimSt) (c : Con) (own : Nat × Nat := (0, 0)) :
     let flagged := r.1.cons.any (·.unsat)
     if flagged then
       { ds := { ds with solver := none, final := restore n ds.final pos },
-        returned := true, flagged := true, accepted := false, margin := r.1.margin, fuelOut := false }
+        returned := true, flagged := true, accepted := false, margin := r.1.margin, fuelOut := false,
+        flaggedOwners := ((List.range r.1.cons.size).filter fun i => (r.1.cons[i]!).unsat).map fun i => ds.owner.getD i own }
     else
       { ds := { ds with solver := some r.1, valid := ds.valid.push c, owner := ds.owner.push own, final := pos },
         returned := true, flagged := false, accepted := true, margin := r.1.margin, fuelOut := false }
@@ -152,7 +156,8 @@ def MF.trial (mf : MF) (cc sub k : Nat) (a : Alt) : MF × Bool :=
   let o := (mf.dim a.dim).tryCon mf.n a.con (cc, sub)
   let mf := mf.setDim a.dim o.ds
   ({ mf with log := mf.log.push { cc := cc, sub := sub, alt := k, dim := a.dim, con := a.con,
-                                   returned := o.returned, flagged := o.flagged, accepted := o.accepted },
+                                   returned := o.returned, flagged := o.flagged, accepted := o.accepted,
+                                   flaggedOwners := o.flaggedOwners },
              margin := Vpsc.rmin mf.margin o.margin,
              fuelOut := mf.fuelOut || o.fuelOut }, o.accepted)
 
@@ -246,6 +251,11 @@ def MF.droppedCCs (mf : MF) : List Nat := (mf.dropped.map (·.1)).eraseDups
 
 /-- final centre of node `i` in dimension `d` -/
 def MF.nodePos (mf : MF) (d : Dim) (i : Nat) : Rat := (mf.dim d).final[i]!
+
+/-- `scale_r·g_r − gap − scale_l·g_l`: the slack of `c` at positions `g` with the scales of `vars`
+    (all scales are 1 in makeFeasible) -/
+def slackOf (vars : Array (Rat × Rat × Rat)) (g : Array Rat) (c : Con) : Rat :=
+  (vars[c.r]!).2.2 * g[c.r]! - c.gap - (vars[c.l]!).2.2 * g[c.l]!
 
 /-! ### the work list of a scene of user constraints (no overlap avoidance, no clusters) -/
 
